@@ -141,6 +141,12 @@ class Ctx:
         self.tier = tier
         self.others = others or {}     # config id -> Facts
         self.roles = Roles(facts)
+        # private structs that merely carry values from one helper to another (a plan, a lookup result): a field read of a value built
+        # in the same body is the operand stored there.  Never the types whose fields have a role by position (the split table, the old-table
+        # record, located buckets, composite iterators, handles, holders).
+        ro = self.roles
+        keep = {ro.S, ro.O, ro.B} | set(ro.composites) | set(ro.handles) | set(ro.holders)
+        facts.plain_structs = {p_ for p_, a in facts.adts.items() if a.get("kind") == "Struct" and p_.startswith(facts.crate + "::") and p_ not in keep}
         self._calls = {}
         self._closure_site = None
         self._cache = {}
